@@ -418,6 +418,8 @@ def gen_generic_program(rng, name, n_generics=None, n_ifaces=None, iface_assoc=T
     names = rng.sample(GENERIC_NAMES, ng)
     concs = rng.sample(GENERIC_CONCRETE, ng)
     p["generics"] = [{"name": n, "concrete": c.concrete} for n, c in zip(names, concs)]
+    if rng.random() < 0.3:
+        p["lifetime"] = "'a"
     gp = {n: T.generic_param(n, c) for n, c in zip(names, concs)}
     c = p["parts"][0]
     unused = set(rng.sample(names, rng.choice([0, 0, 1]))) if ng > 1 else set()
@@ -449,6 +451,8 @@ def gen_generic_program(rng, name, n_generics=None, n_ifaces=None, iface_assoc=T
             c["handlers"].append(qs[0])
         qs[0]["resp_ti"] = intern_type(p, gp[n])
         [qs[0].pop(k_, None) for k_ in ("resp_explicit", "resp_decl_ti", "resp_literal")]
+        if rng.random() < 0.5:
+            qs[0]["resp_explicit"] = n   # `resp=<parameter>` with an aliased result: still a use of the parameter
     # A bound relating two parameters: the (single) predicate of `a` mentions `b`, so a message type that
     # uses `a` but not `b` must drop it.  sylvia accepts one `Ident: Bounds` predicate per parameter (it
     # derives helper-trait items from them), and the instantiate builder needs `a: Serialize` from that
